@@ -16,7 +16,8 @@ func init() {
 		Rule:     "trial = generated SAM + its reference; queries with 1..3 non-conflicting records (disjoint, or overlapping without an insertion anchor inside another record), any number/placement of insertions incl. at record ends, D/N/S/H/P/=/X; x --skip-insertions x --omit-reference x --start/--end x --wrap x stdout/directory; 3 seeded schedules with --threads in {1,2,3,4,8}; oracle = executable reference model of the pair (and, with --skip-insertions, the toMultiAlign --pad row); outputs are matched per query name; non-trivial = some query has an insertion or a deletion, and >= 2 queries; distinct = distinct (input, options)",
 		Gen:      genC02,
 		Check:    checkC02,
-		Required: []string{"query_with_insertion", "multi_record_query", "insertion_at_record_end", "out_of_order_arrival"},
+		Required: []string{"query_with_insertion", "multi_record_query", "insertion_at_record_end"},
+		Expected: []string{"out_of_order_arrival"},
 	})
 }
 
